@@ -550,27 +550,25 @@ theorem C04_prefix_values (R : RelabelOp γ) (pre : String) (hf : R.f = fun c =>
   rw [hf] at he
   exact append_left_inj' he
 
-/-- FULL STATEMENT (false on the current tree): the suffix theorems for every suffix.
-    `AddSuffix._convert_columns` slices with `col[:-len(suffix)]`, which is the empty string for the empty suffix:
-    `df.add_suffix('')[['a']]` raises KeyError (N6). -/
-theorem C04_suffix_wf_partial (suf : String) (hs : suf.length ≠ 0) (frame : List Name) (p : Parent) (deps : List Dep) (rw : Rw)
+/-- the suffix theorems hold for every suffix, the empty one included (full since D38) -/
+theorem C04_suffix_wf (suf : String) (frame : List Name) (p : Parent) (deps : List Dep) (rw : Rw)
     (h : affix true suf.length frame p deps = some rw) :
     ∃ child, rw.isKeep1 child ∧ (∀ c, c ∈ child → c ∈ frame) ∧ (frame.Nodup → child.Nodup) ∧
       ∀ c, c ∈ frame → c ++ suf ∈ p.cols → c ∈ child := by
   have hsp := affix_spec h
   simp only [if_true] at hsp
   exact ⟨_, hsp, fun c hc => (List.mem_filter.mp hc).1, fun hn => List.Nodup.sublist List.filter_sublist hn,
-    fun c hc hreq => suffix_sources hs hc hreq⟩
+    fun c hc hreq => suffix_sources hc hreq⟩
 
 theorem C04_suffix_labels (R : RelabelOp γ) (F : Frame γ) (n : Nat) (p : Parent) (deps : List Dep)
     (rw : Rw) (h : affix true n F.cols p deps = some rw) : (evalRw R.op p.cols rw F).cols = p.cols :=
   C04_keep1_labels R.op p.cols rw _ F (affix_spec h)
 
-theorem C04_suffix_values_partial (R : RelabelOp γ) (suf : String) (hs : suf.length ≠ 0) (hf : R.f = fun c => c ++ suf)
+theorem C04_suffix_values (R : RelabelOp γ) (suf : String) (hf : R.f = fun c => c ++ suf)
     (F : Frame γ) (p : Parent) (deps : List Dep) (rw : Rw) (h : affix true suf.length F.cols p deps = some rw)
     (c : Name) (hc : c ∈ F.cols) (hreq : c ++ suf ∈ p.cols) :
     (evalRw R.op p.cols rw F).val (c ++ suf) = (evalOrig R.op p.cols F).val (c ++ suf) := by
-  obtain ⟨child, hk, hsub, _, hsrc⟩ := C04_suffix_wf_partial suf hs F.cols p deps rw h
+  obtain ⟨child, hk, hsub, _, hsrc⟩ := C04_suffix_wf suf F.cols p deps rw h
   have hcc : c ∈ child := hsrc c hc hreq
   rw [evalRw_keep1 R.op p.cols rw F child hk]
   unfold evalOrig
@@ -582,9 +580,8 @@ theorem C04_suffix_values_partial (R : RelabelOp γ) (suf : String) (hs : suf.le
   rw [hf] at he
   exact append_right_inj' he
 
-/-- the empty suffix: the requested column is pruned away -/
-theorem C04_suffix_counterexample :
-    affix true 0 ["a", "b"] (.list ["a"]) [] = some { childs := [some (.many [])], keep := true } := by decide
+-- the empty suffix (D38): the requested column stays
+example : affix true 0 ["a", "b"] (.list ["a"]) [] = some { childs := [some (.many ["a"])], keep := true } := by decide
 
 -- prefix + set_index: add_prefix('p_') then set_index('p_k')[['p_a']] — each rule keeps what the next one needs
 example : keyed ["p_a", "p_b", "p_k"] ["p_k"] (.list ["p_a"]) [] = some { childs := [some (.many ["p_a", "p_k"])], keep := true } := by decide
